@@ -769,7 +769,20 @@ fn gen_table_fault(rng: &mut Rng, info: &FontInfo, targets: &[String]) -> Option
                     field: String::new(),
                 }
             } else {
-                let f = rng.pick(&fields).clone();
+                let crafted: Vec<&fields::Field> = fields.iter().filter(|f| f.bytes.is_some()).collect();
+                let f = if !crafted.is_empty() && rng.pct(25) {
+                    (*rng.pick(&crafted)).clone()
+                } else {
+                    rng.pick(&fields).clone()
+                };
+                if let Some(bytes) = f.bytes {
+                    return Some(Fault::Write {
+                        target,
+                        off: f.off,
+                        bytes,
+                        field: f.name,
+                    });
+                }
                 let old = read_be(&data, f.off, f.width);
                 Fault::Set {
                     target,
@@ -879,6 +892,14 @@ fn gen_file_fault(rng: &mut Rng, info: &FontInfo, rewrap: bool) -> Option<Fault>
         let fs = fields::locate(&tag, &tdata, rng);
         if !fs.is_empty() && rng.pct(70) {
             let f = rng.pick(&fs).clone();
+            if let Some(bytes) = f.bytes {
+                return Some(Fault::Write {
+                    target,
+                    off: e.offset + f.off,
+                    bytes,
+                    field: format!("{}@file", f.name),
+                });
+            }
             let old = read_be(&tdata, f.off, f.width);
             return Some(Fault::Set {
                 target,
